@@ -60,6 +60,10 @@ type options struct {
 	// pointers of the target the validation of defaults is currently below
 	validating map[uintptr]struct{}
 
+	// pairs of configs Merge is merging at the moment: references can lead
+	// back into a pair that is still being merged
+	merging map[[2]*fields]struct{}
+
 	// how often in a row a primitive was taken as a list of one entry
 	listWraps int
 
@@ -296,6 +300,7 @@ func makeOptions(opts []Option) *options {
 		cycles:       new(int),
 		reifying:     map[*cfgDynamic]struct{}{},
 		validating:   map[uintptr]struct{}{},
+		merging:      map[[2]*fields]struct{}{},
 	}
 	for _, opt := range opts {
 		opt(&o)
